@@ -2,6 +2,7 @@ package props
 
 import (
 	"fmt"
+	"html/template"
 	"os"
 	"path/filepath"
 	"regexp"
@@ -422,6 +423,97 @@ func c14W4(b *core.B, r *core.Rng, rounds int) {
 	}
 }
 
+// W5: a helper context kept by a helper of the caller's (what contentFor does) and its block
+// replayed by hand by many executions at once; the block ends in a break or continue for some
+// of them, and is replayed inside loops and inside other helpers' blocks.
+func c14W5(b *core.B, r *core.Rng, rounds int) {
+	for round := 0; round < rounds; round++ {
+		ctl := []string{"break", "continue"}[round%2]
+		page := "<%= for (q) in [1] { %><% keepSide() { %>[A<% if (odd) { " + ctl + " } %>B|<%= who %>]<% } %><% } %>"
+		layout := []string{
+			"layout(<%= for (x) in [1, 2] { %>x<%= replaySide() %>y<% } %>)<%= who %>",
+			"layout(<%= for (x) in [1, 2] { %><%= cap() { %>x<%= replaySide() %>y<% let q = 1 %>z<% } %><% } %>)<%= who %>",
+			"layout(<%= replaySide() %><%= if (true) { %>X<% let q = 1 %>Y<% } %>)<%= who %>",
+		}[(round/2)%3]
+		if !b.Begin("W5 " + page + "\n=====\n" + layout) {
+			continue
+		}
+		tp, err1 := plush.NewTemplate(page)
+		tl, err2 := plush.NewTemplate(layout)
+		if err1 != nil || err2 != nil {
+			continue
+		}
+		parent := progCtx(nil)
+		var kept plush.HelperContext
+		parent.Set("keepSide", func(h plush.HelperContext) string { kept = h; return "" })
+		parent.Set("replaySide", func(h plush.HelperContext) (template.HTML, error) {
+			s, err := kept.BlockWith(h.New())
+			return template.HTML(s), err
+		})
+		parent.Set("odd", false)
+		parent.Set("who", "declared-in-parent")
+		if pan := core.Guard(func() { _, err1 = tp.Exec(parent) }); pan != nil || err1 != nil {
+			continue
+		}
+		run := func(g int) (string, *core.PanicInfo) {
+			env := &progEnv{}
+			ctx := c14Child(parent, env)
+			ctx.Set("who", fmt.Sprintf("w%d", g))
+			ctx.Set("odd", g%2 == 1)
+			var out string
+			pan := core.Guard(func() {
+				c14Enter()
+				defer c14Leave()
+				s2, e2 := tl.Exec(ctx)
+				out = fmt.Sprintf("%q %v", s2, e2)
+			})
+			return out, pan
+		}
+		G := []int{4, 8, 16, 32}[(round/2)%4]
+		refs := make([]string, G)
+		for g := 0; g < G; g++ {
+			o, pan := run(g)
+			if pan != nil {
+				b.Violate(pan.Sig(), "sequential: "+pan.Value)
+			}
+			refs[g] = o
+		}
+		start := make(chan struct{})
+		var wg sync.WaitGroup
+		var mu sync.Mutex
+		var bad []string
+		for g := 0; g < G; g++ {
+			wg.Add(1)
+			go func(g int) {
+				defer wg.Done()
+				<-start
+				for rep := 0; rep < 6; rep++ {
+					o, pan := run(g)
+					if pan != nil {
+						mu.Lock()
+						bad = append(bad, "panic: "+pan.Sig()+": "+pan.Value)
+						mu.Unlock()
+						return
+					}
+					if o != refs[g] {
+						mu.Lock()
+						bad = append(bad, fmt.Sprintf("goroutine %d: sequential %s, concurrent %s", g, refs[g], o))
+						mu.Unlock()
+						return
+					}
+				}
+			}(g)
+		}
+		close(start)
+		wg.Wait()
+		b.Count(fmt.Sprintf("W5:kept-block-with-%s-replayed-by-hand:G=%d", ctl, G))
+		b.NonTrivialStr(page + layout)
+		if len(bad) > 0 {
+			b.Violate("concurrent-result-differs|W5-kept-block", strings.Join(bad, "\n"))
+		}
+	}
+}
+
 func renderQuietNoCache(t string, ctx *plush.Context) R {
 	var r R
 	r.Pan = core.Guard(func() {
@@ -667,6 +759,7 @@ func c14Run(b *core.B) {
 	switch b.Batch % 5 {
 	case 4:
 		c14W4(b, r, 40*scale)
+		c14W5(b, r, 12*scale)
 	case 0:
 		c14W1(b, r, 30*scale)
 	case 1:
@@ -685,7 +778,7 @@ func init() {
 	core.Register(&core.Prop{
 		ID:      "C14",
 		Level:   "exploration",
-		Rule:    "worker processes built with -race (and -tags verif), each sub-workload in its own child process, repeated 5x (quick) / 30x (thorough) because race reports vary from run to run. W1: one parsed template from the shared generator (no mutation of shared data; every fourth one a fresh Clone nobody has executed) executed by G in {2,4,8,16,32} goroutines x 3 repetitions, with own root contexts and with child contexts of one shared parent, hook H3 yielding at statement boundaries under a seeded chooser (in every other repetition the harness keeps quiet instead: no yield hook and no shared counters, whose atomics would order the executions and hide races from a happens-before detector); every result (output, error, side-effect trace) compared with the sequential result. W2: CacheEnabled=true, 4-32 goroutines mixing Render / Parse+Exec / CacheSet+Clone / cold texts over 6 templates, results compared with sequential ones. W4: the layout pattern - per goroutine one execution declaring a contentFor block and a later execution of another template replaying it with contentOf on the same child context of a shared parent, or the block declared once in the shared parent and replayed with per-execution data from its children, 4-32 goroutines. W3: 2-16 goroutines doing Set (unique values) / Value / Has on one context and through its child and grandchild plus New() storms, few keys; in half of the rounds every call is recorded at the client boundary with ticks from one atomic counter and the history (<= 400 operations) is checked for linearizability against a per-key register model with porcupine (timeout -> inconclusive). Oracle for all: every 'WARNING: DATA RACE' block of the process' race log whose innermost frame of either access is plush code is a violation 'race:<f>|<g>'. Non-trivial = a template / round that ran with >= 2 goroutines; evidence reports the maximum number of overlapping Exec calls and the number of distinct interleaving fingerprints observed.",
+		Rule:    "worker processes built with -race (and -tags verif), each sub-workload in its own child process, repeated 5x (quick) / 30x (thorough) because race reports vary from run to run. W1: one parsed template from the shared generator (no mutation of shared data; every fourth one a fresh Clone nobody has executed) executed by G in {2,4,8,16,32} goroutines x 3 repetitions, with own root contexts and with child contexts of one shared parent, hook H3 yielding at statement boundaries under a seeded chooser (in every other repetition the harness keeps quiet instead: no yield hook and no shared counters, whose atomics would order the executions and hide races from a happens-before detector); every result (output, error, side-effect trace) compared with the sequential result. W2: CacheEnabled=true, 4-32 goroutines mixing Render / Parse+Exec / CacheSet+Clone / cold texts over 6 templates, results compared with sequential ones. W4: the layout pattern - per goroutine one execution declaring a contentFor block and a later execution of another template replaying it with contentOf on the same child context of a shared parent, or the block declared once in the shared parent and replayed with per-execution data from its children, 4-32 goroutines. W5: a helper context kept by a helper of the caller's, its block - which ends in a break or continue for every other execution - replayed by hand inside loops, inside another helper's block and at top level by 4-32 executions at once. W3: 2-16 goroutines doing Set (unique values) / Value / Has on one context and through its child and grandchild plus New() storms, few keys; in half of the rounds every call is recorded at the client boundary with ticks from one atomic counter and the history (<= 400 operations) is checked for linearizability against a per-key register model with porcupine (timeout -> inconclusive). Oracle for all: every 'WARNING: DATA RACE' block of the process' race log whose innermost frame of either access is plush code is a violation 'race:<f>|<g>'. Non-trivial = a template / round that ran with >= 2 goroutines; evidence reports the maximum number of overlapping Exec calls and the number of distinct interleaving fingerprints observed.",
 		Assume:  []string{"a clean run means no race on the interleavings observed, not race freedom", "templates do not mutate data reachable from a shared parent (that would be a user-level race)"},
 		Batches: batchesQT(25, 150),
 		Run:     c14Run,
